@@ -42,8 +42,10 @@ def this_field(n):
 class VecEval:
     """evaluates the vector statements of one method; env maps ('m',field)/('p',param name) -> expr"""
 
-    def __init__(self, view, env, matrix_field="_matrix", diag_fields=()):
+    def __init__(self, view, env, matrix_field="_matrix", diag_fields=(), methods=None, depth=0):
         self.v = view
+        self.methods = methods or {}
+        self.depth = depth
         self.env = dict(env)
         self.matrix_field = matrix_field
         self.diag_fields = set(diag_fields)
@@ -98,6 +100,19 @@ class VecEval:
         nm = n.get("n")
         obj = n.get("obj")
         a = n.get("a", [])
+        if obj is None or strip(obj).get("k") == "This":
+            # private helper of the same class without arguments: evaluate its body in place
+            cal = self.methods.get(nm)
+            if cal is not None and not a and not cal.params and self.depth < 4:
+                sub = VecEval(FnView(cal), self.env, self.matrix_field, self.diag_fields, self.methods, self.depth + 1)
+                sub.run(cal.body.get("s", []))
+                self.env = sub.env
+                self.diag_fields |= sub.diag_fields
+                return True
+            if nm in ("name",):
+                return False
+            raise NotStraight("call of member function %s()" % nm)
+        obj = self.v.value(obj)
         of = this_field(obj) if obj is not None else None
         if of == self.matrix_field:
             if nm == "extract_diag" and len(a) == 1:
@@ -209,7 +224,7 @@ class Summaries:
         key = (id(f), tainted)
         if key in self.memo:
             return self.memo[key]
-        res = {"reads": set(), "fresh": set(), "writes": set(), "value_access": [], "stmts": {}}
+        res = {"reads": set(), "fresh": set(), "writes": set(), "value_access": [], "stmts": {}, "opaque": set()}
         self.memo[key] = res
         if depth > 8:
             return res
@@ -311,6 +326,7 @@ class Summaries:
                     res["writes"] |= sub["writes"]
                     res["fresh"] |= sub["fresh"]
                     res["value_access"] += sub["value_access"]
+                    res["opaque"] |= sub["opaque"]
                     for fl in sub["fresh"]:
                         res["stmts"].setdefault(fl, []).append(n.get("i"))
                     if obj is not None and field_of(obj) is not None:
@@ -319,15 +335,20 @@ class Summaries:
                             written_nodes.add(id(x))
                     continue
                 # unresolved callee: receiver field written if the method is non-const, arguments written if taken by non-const reference
+                known_vec = ("component_invert", "component_product", "scale", "axpy", "copy", "format", "clear", "resize", "data", "elements",
+                             "create_vector_r", "create_vector_l", "operator=", "clone", "empty", "size", "push_back", "assign", "reserve")
                 if obj is not None:
                     fl = field_of(obj)
                     if fl is not None and not n.get("cconst"):
                         res["writes"].add(fl)
+                        if nm not in known_vec:
+                            res["opaque"].add(fl)
                 for pt, arg in zip(n.get("pt") or [], n.get("a") or []):
                     fl = field_of(arg)
                     ty = f.type(pt) if isinstance(pt, int) else ""
                     if fl is not None and ("&" in ty or "*" in ty) and not ty.strip().startswith("const "):
                         res["writes"].add(fl)
+                        res["opaque"].add(fl)
         for n in walk(f.body):
             if n.get("k") == "Member" and id(n) not in written_nodes:
                 fl = field_of(n)
